@@ -41,7 +41,14 @@ ASSUME = [
 
 # Real defects of /repo that are reproduced by this check and awaiting a decision by the coordinator.
 # Narrow structural matches only; see the final report.  (Empty: none found.)
-PENDING_FINDINGS = []
+PENDING_FINDINGS = [
+    # F2 (property C06: `CanScaleThresholdWithoutOverflow` evaluates get_value<Rep>(k) eagerly, hard error for
+    # integral reps and an integer factor k > max(Rep)) leaks into mixed operations: e.g.
+    # `Quantity<Nano<Seconds>, int32_t>{} < std::chrono::hours{}` is ill-formed although the common type
+    # (int64 nanoseconds) passes the policy and std::chrono compiles the comparison.  Only pairs in exactly
+    # that region are filtered (both reps integral, integer factor beyond the narrower operand's rep).
+    {"kind": "pair", "observable": "compiles", "f2_region": True, "documented_policy": True, "model": "hard"},
+]
 
 REPS = ["i32", "i64", "f32", "f64"]
 CTYPE = {"i32": "int32_t", "i64": "int64_t", "f32": "float", "f64": "double"}
@@ -148,21 +155,22 @@ def scale_factors(p1, p2):
     return int(k1), int(k2), g
 
 
-def au_compiles_oracle(r1, p1, r2, p2, qside):
-    """Documented policy: for an integral common rep both scale factors k must satisfy 2147*k <= max.
-    In addition (consequence of finding F2, not documented): overload resolution asks whether the
-    duration converts implicitly to the Quantity operand's own type, which is ill-formed when both
-    reps are integral and the factor is an integer beyond the Quantity's rep.  qside: 0 if operand 1
-    is the Quantity, 1 if operand 2 is."""
-    (qr, qp), (dr, dp) = ((r1, p1), (r2, p2)) if qside == 0 else ((r2, p2), (r1, p1))
-    if accept_oracle(qr, qp, dr, dp) == "hard":
-        return False
+def au_policy_oracle(r1, p1, r2, p2):
+    """Documented policy: for an integral common rep both scale factors k must satisfy 2147*k <= max."""
     cr = common_rep(r1, r2)
     if not is_int(cr):
         return True
     k1, k2, _ = scale_factors(p1, p2)
     hi = INT_RANGE[cr][1]
     return all(k == 1 or THRESH * k <= hi for k in (k1, k2))
+
+
+def f2_leak(r1, p1, r2, p2):
+    """Undocumented consequence of finding F2: overload resolution meets the hidden friends
+    op(Q, Q) of both operand classes and asks whether the other operand converts implicitly to Q;
+    that question is ill-formed when both reps are integral and the factor is an integer beyond Q's
+    rep."""
+    return accept_oracle(r1, p1, r2, p2) == "hard" or accept_oracle(r2, p2, r1, p1) == "hard"
 
 
 def oracle_ops(r1, p1, x1, r2, p2, x2):
@@ -271,7 +279,7 @@ BASE_PERIODS = [(1, 1000000000), (1, 1000000), (1, 1000), (1, 1), (60, 1), (3600
 
 
 def gen_periods(rng, tier):
-    n_extra = 5 if tier == "quick" else 14
+    n_extra = 2 if tier == "quick" else 11
     out = list(BASE_PERIODS)
     # non-reduced spellings (std::ratio normalises; specialisation matching does not)
     out.append(rng.choice([(2, 4), (120, 2), (1000, 1000000), (7200, 2), (3, 180), (10, 10)]))
@@ -644,6 +652,8 @@ struct PEntry { int id; std::string (*info)(); std::string (*run)(const char*, c
 '''
 
 HARNESS_MAIN = r'''
+#include <sys/wait.h>
+#include <unistd.h>
 volatile long g_ub = 0;
 extern "C" void __ubsan_on_report(void) { g_ub = g_ub + 1; }
 int main() {
@@ -655,9 +665,25 @@ int main() {
         if (n >= 2 && (cmd == 'I' || cmd == 'R')) {
             for (int c = 0; c < n_tchunks; ++c) for (int i = 0; i < tchunk_sizes[c]; ++i) if (tchunks[c][i].id == id)
                 out = cmd == 'I' ? tchunks[c][i].info() : (n >= 3 ? tchunks[c][i].rt(a) : std::string("bad"));
-        } else if (n >= 2 && (cmd == 'J' || cmd == 'O')) {
+        } else if (n >= 2 && cmd == 'J') {
             for (int c = 0; c < n_pchunks; ++c) for (int i = 0; i < pchunk_sizes[c]; ++i) if (pchunks[c][i].id == id)
-                out = cmd == 'J' ? pchunks[c][i].info() : (n >= 4 ? pchunks[c][i].run(a, b) : std::string("bad"));
+                out = pchunks[c][i].info();
+        } else if (n >= 4 && cmd == 'O') {
+            // UBSan reports each source location once per process, so every evaluation runs in a
+            // forked child: a sanitizer report is then attributable to this very input.
+            fflush(stdout);
+            pid_t pid = fork();
+            if (pid == 0) {
+                for (int c = 0; c < n_pchunks; ++c) for (int i = 0; i < pchunk_sizes[c]; ++i) if (pchunks[c][i].id == id)
+                    out = pchunks[c][i].run(a, b);
+                printf("%c %d %s\n", cmd, id, out.c_str());
+                fflush(stdout);
+                _exit(0);
+            }
+            int status = 0;
+            waitpid(pid, &status, 0);
+            if (!(WIFEXITED(status) && WEXITSTATUS(status) == 0)) { printf("%c %d crashed\n", cmd, id); fflush(stdout); }
+            continue;
         }
         printf("%c %d %s\n", cmd, id, out.c_str());
         fflush(stdout);
@@ -736,10 +762,10 @@ def write_value_harness(wd, types, pairs, nchunks):
     return files
 
 
-def build(wd, files, compiler, std, tag, san=True):
+def build(wd, files, compiler, std, tag, san=True, opt="-O1"):
     def comp(src):
         obj = src[:-3] + f".{tag}.o"
-        rc, out = cxx(src, obj, compiler=compiler, std=std, san=san, extra=["-c"])
+        rc, out = cxx(src, obj, compiler=compiler, std=std, san=san, opt=opt, extra=["-c"])
         return src, obj, rc, out
     objs = []
     for src, obj, rc, out in pmap(comp, files):
@@ -867,8 +893,11 @@ def explore(tier, seed, rng, wd):
     corr = [kv(l) for l in drv.ask([f"c17corr {t['rep']} {t['n']} {t['d']}" for t in types])]
 
     # ---- pair instances -----------------------------------------------------------------------
+    def side_code(pr):
+        return {(0, True): "qd", (1, True): "dq", (0, False): "cd", (1, False): "dc"}[(pr["side"], pr["generic"])]
+
     rep_pairs = [(a, b) for a in REPS for b in REPS]
-    per_pp = 4 if tier == "quick" else 8
+    per_pp = 2 if tier == "quick" else 6
     pairs = []
     byrp = {(t["rep"], t["n"], t["d"]): t for t in types}
     k = rng.randrange(16)
@@ -880,9 +909,6 @@ def explore(tier, seed, rng, wd):
                 pairs.append({"id": len(pairs), "a": byrp[(r1,) + p1], "b": byrp[(r2,) + p2],
                               "side": rng.randrange(2), "generic": rng.random() < 0.4})
     stats["pairs_total"] = len(pairs)
-
-    def side_code(pr):
-        return {(0, True): "qd", (1, True): "dq", (0, False): "cd", (1, False): "dc"}[(pr["side"], pr["generic"])]
 
     def ops_req(pr, x1, x2):
         a, b = pr["a"], pr["b"]
@@ -897,11 +923,22 @@ def explore(tier, seed, rng, wd):
     for pr, mi in zip(pairs, pinfo):
         pr["model"] = mi
         a, b = pr["a"], pr["b"]
-        want = au_compiles_oracle(a["rep"], (a["n"], a["d"]), b["rep"], (b["n"], b["d"]), pr["side"])
-        if (mi["compiles"] == "ok") != want:
-            violations.append({"what": "model's mixedCompiles disagrees with the documented threshold formula",
+        pa, pb = (a["n"], a["d"]), (b["n"], b["d"])
+        pol = au_policy_oracle(a["rep"], pa, b["rep"], pb)
+        leak = f2_leak(a["rep"], pa, b["rep"], pb)
+        rec = {"kind": "pair", "a": type_key(a), "b": type_key(b), "shape": side_code(pr), "observable": "compiles",
+               "model": mi["compiles"], "model_policy": mi["policy"], "documented_policy": pol, "f2_region": leak}
+        if (mi["policy"] == "ok") != pol or (mi["compiles"] == "ok") != (pol and not leak):
+            violations.append({"what": "model's mixedCompiles / policyCompiles disagree with the threshold formula",
                                "class": "model-vs-formula-compiles", "no_input": True, "broken": "Au.Chrono.mixedCompiles",
-                               "rec": {"kind": "pair", "a": type_key(a), "b": type_key(b), "model": mi["compiles"], "formula": want}})
+                               "rec": rec})
+        if pol and mi["compiles"] != "ok":
+            # the documented policy admits this mixed operation (and std::chrono computes it) but it is ill-formed
+            stats["pairs_ill_formed_despite_policy"] = stats.get("pairs_ill_formed_despite_policy", 0) + 1
+            violations.append({"what": f"mixed operation between {type_key(a)} and {type_key(b)} is ill-formed although the documented "
+                                       f"conversion policy admits it (common rep {common_rep(a['rep'], b['rep'])}): hard error while "
+                                       f"overload resolution asks whether one operand converts implicitly to the other's type",
+                               "class": "oracle-compiles-f2", "rec": rec})
         (compiling if mi["compiles"] == "ok" else rejected).append(pr)
     stats["pairs_compiling"] = len(compiling)
     stats["pairs_rejected_by_au"] = len(rejected)
@@ -971,7 +1008,9 @@ def explore(tier, seed, rng, wd):
         # in the quick tier the second configuration builds a third of the pair instances
         use = compiling if (ci == 0 or tier != "quick") else compiling[ci::3]
         fl = files if use is compiling else write_value_harness(os.path.join(wd), types, use, 16)
-        exe, err = build(wd, fl, compiler, std, tag)
+        # quick tier: -O0 (the sanitizer-instrumented build is 3x faster); thorough: -O1 for the first configuration
+        opt = "-O1" if (tier != "quick" and ci == 0) else "-O0"
+        exe, err = build(wd, fl, compiler, std, tag, opt=opt)
         lap("build_" + tag)
         if exe is None:
             violations.append({"what": f"value harness does not compile under {cfg}: a pair the model calls well-formed is "
@@ -979,7 +1018,7 @@ def explore(tier, seed, rng, wd):
                                "class": "harness-build", "no_input": True, "broken": "correspondence: Au.Chrono.mixedCompiles / API",
                                "rec": {"kind": "build", "config": cfg}, "detail": err})
             continue
-        stats["configs"].append(cfg)
+        stats["configs"].append(f"{cfg} {opt}")
         lines = []
         for t in types:
             lines.append(f"I {t['id']}")
@@ -1101,6 +1140,8 @@ def check_type_info(t, m, r, cfg, violations, stats, samples):
     base = {"kind": "type", "rep": t["rep"], "period": f"{t['n']}/{t['d']}", "config": cfg}
     # statement-level oracle
     want_named = NAMED.get((t["n"], t["d"]), "-") if t["rep"] == "i64" else "-"
+    if (n, d) == (1, 1):
+        want_named = "Seconds"          # Seconds * Magnitude<> is Seconds itself (ComputeScaledUnit)
     bad = []
     if r["rep_same"] != "1":
         bad.append("as_quantity(d) does not have d's rep")
